@@ -37,6 +37,8 @@ def run(F, R, ctx):
     counter_width_rule(F, R)
     printer_fields_rule(F, R)
     string_token_printer_rule(F, R)
+    delimiter_owner_rule(F, R)
+    char_count_offset_rule(F, R)
 
 
 def _run(F, R, ctx):
@@ -561,3 +563,75 @@ def string_token_printer_rule(F, R):
         R.inst("C12.t", "Display for TokenType / StringLiteral escapes quote and backslash", ok,
                "Display for TokenType writes a StringLiteral's text verbatim between double quotes: a string that contains a "
                "double quote or a backslash is printed as something the lexer reads differently (or rejects)", fn.loc(), sample=True)
+
+
+DELIMS = {"40", "41", "91", "93", "123", "125"}
+DELIM_ALLOW = {
+    "cycles::symbol_needs_bars": "the writer's question whether a symbol must be written between bars; tied to the lexer by C12.w",
+}
+
+
+def delimiter_owner_rule(F, R):
+    R.rule("C12.x", "only the lexer classifies list delimiters in text: a function that compares bytes / characters with an opening "
+                    "and a closing list delimiter ( ( [ { and ) ] } ) belongs to steel_parser::lexer, or is allowlisted by name with "
+                    "a reason. Whether a datum is complete is decided by lexing and parsing it; a count of raw delimiters outside "
+                    "the lexer cannot know that a delimiter inside a string, a character literal, a |symbol| or a comment is not one")
+    owners = 0
+    for n, fn in sorted(F.fns.items()):
+        seen = set()
+        for b in fn.blocks:
+            if b["c"]:
+                continue
+            if b["k"] == "switch" and b.get("on") in ("u8", "char", "u32"):
+                seen |= {v for v, _ in b["targets"]} & DELIMS
+            for e in b["e"]:
+                if e[0] == "binop" and e[1] in ("Eq", "Ne") and e[2] in ("u8", "char"):
+                    seen |= {str(x)[6:] for x in e[5:] if str(x).startswith("const:")} & DELIMS
+        if not (seen & {"40", "91", "123"} and seen & {"41", "93", "125"}):
+            continue
+        if n.startswith("steel_parser::lexer::"):
+            owners += 1
+            continue
+        key = lib.short_name(n)
+        allow = [r for k, r in DELIM_ALLOW.items() if k in key]
+        R.inst("C12.x", "%s classifies list delimiters" % key, bool(allow),
+               "%s compares input characters with opening and closing list delimiters (%s) outside the lexer: it decides something "
+               "about the shape of a datum from raw text, so `(a \"(\" b)` — an opener inside a string, a character literal #\\( , a "
+               "|a{b| symbol or a comment — is miscounted (a complete list looks unfinished, or an unfinished one complete)" % (
+                   key, " ".join(sorted(chr(int(v)) for v in seen))), fn.loc(), sample={"allow": allow[0]} if allow else True,
+               nontrivial=not allow)
+    R.floor("C12.x", "lexer functions classifying list delimiters (positive control)", owners, 3)
+
+
+def char_count_offset_rule(F, R):
+    R.rule("C12.u", "a character count is never used as a byte offset: in steel-parser and the script-reachable string code of "
+                    "steel-core, no position that derives from the counter of `chars().enumerate()` (Enumerate<Chars>::next) "
+                    "reaches str::split_at / split_at_mut, a str range index, or get_unchecked. On text with a multi-byte "
+                    "character before the position the offset is not a character boundary and the operation panics; "
+                    "`char_indices()` yields byte offsets")
+    SINK = re.compile(r"core::str::\{impl str\}::split_at(_mut|_checked)?$|core::str::traits::.*::index(_mut)?$|"
+                      r"core::str::\{impl str\}::get_unchecked(_mut)?$|core::str::\{impl str\}::(get|is_char_boundary)$")
+    n = 0
+    for name, fn in sorted(F.fns.items()):
+        if not (name.startswith("steel_parser::") or name.startswith("steel::")):
+            continue
+        sinks = [b for _, b in fn.calls() if SINK.search(b["callee"])]
+        if not sinks:
+            continue
+        n += 1
+        srcs = [b["dest"] for _, b in fn.calls()
+                if re.search(r"Enumerate<I>\}::next$", b["callee"]) and any(re.search(r"Enumerate<(core::str::)?Chars\b", t) for t in (b.get("targs") or []))]
+        if not srcs:
+            continue
+        taint = lib.tainted_locals(fn, srcs)
+        bad = None
+        for b in sinks:
+            if any(a in taint for a in b["args"][1:]):
+                bad = b
+                break
+        R.inst("C12.u", "%s / the counter of chars().enumerate() is not a byte offset" % fn.short(), bad is None,
+               bad and ("%s hands a position counted in characters (chars().enumerate()) to %s (line %s), which takes a byte offset: "
+                        "with a multi-byte character in front of the position — (string->number \"é/2\") — the offset is not a "
+                        "character boundary and the host panics" % (fn.short(), lib.short_name(bad["callee"]), bad.get("line"))),
+               fn.loc(bad.get("line")) if bad else "", sample=True)
+    R.floor("C12.u", "functions that slice text at byte offsets (population examined)", n, 10)
